@@ -26,6 +26,9 @@ if [ -f "$SD/demo.cpp" ]; then
   g++ -std=c++11 -O1 -w -I$S/patched -DMUSCLE_ENABLE_ZLIB_ENCODING $DEFS "$SD/demo.cpp" $S/lp/lib.a -lz -lutil -lpthread -o $S/demo_patched > $S/dp.log 2>&1
   if [ -x $S/demo_clean ]; then ( cd $S && timeout 120 ./demo_clean > $S/run_clean.txt 2>&1 ); DEMO_CLEAN=$?; else DEMO_CLEAN="build failed"; fi
   if [ -x $S/demo_patched ]; then ( cd $S && timeout 120 ./demo_patched > $S/run_patched.txt 2>&1 ); DEMO_PATCHED=$?; else DEMO_PATCHED="build failed"; fi
+elif [ -f "$SD/demo.py" ]; then
+  ( cd $S && MUSCLE_WORKTREE=$S/clean timeout 300 python3 "$SD/demo.py" $S/clean > $S/run_clean.txt 2>&1 ); DEMO_CLEAN=$?
+  ( cd $S && MUSCLE_WORKTREE=$S/patched timeout 300 python3 "$SD/demo.py" $S/patched > $S/run_patched.txt 2>&1 ); DEMO_PATCHED=$?
 elif [ -f "$SD/demo.sh" ]; then
   ( cd $S && timeout 900 bash "$SD/demo.sh" $S/clean > $S/run_clean.txt 2>&1 ); DEMO_CLEAN=$?
   ( cd $S && timeout 900 bash "$SD/demo.sh" $S/patched > $S/run_patched.txt 2>&1 ); DEMO_PATCHED=$?
